@@ -1,7 +1,9 @@
 package main
 
 import (
+	"fmt"
 	"go/ast"
+	"go/token"
 	"strings"
 )
 
@@ -200,5 +202,200 @@ func init() {
 					ex.str(l[len(l)-1]) == "return rxc, isNewConn, err" && countStr(stmtStrings(ex, gr.Body), "return rxc, isNewConn, err") == 1,
 				true, "getReservedExchanger: both ReserveNewQuery results are assigned to rxc, the loop over the connections leaves at the first reservation it obtains, a connection is dialed only if rxc is still nil, rxc is what is returned (no reservation is taken and dropped)")
 		}
+
+		// ---- the limits as pkg/upstream.NewUpstream configures them
+		ex.c09UpstreamLimits()
 	})
+}
+
+// c09UpstreamLimits: for every transport.PipelineOpts literal in NewUpstream whose DialContext builds a
+// TraditionalDnsConn (transport.NewDnsConn), the pair (MaxConcurrentQueryWhileDialing, MaxConcurrentQuery of the
+// connection options), both resolved to numbers (literal, local or package constant; field absent: the
+// transport's default). Identifiers are resolved to the last preceding `name := ...` whose block encloses the use.
+func (ex *factExtractor) c09UpstreamLimits() {
+	const urel = "pkg/upstream/upstream.go"
+	const note = "NewUpstream: (limit while dialing, limit of the dialed connection) of every PipelineTransport over TraditionalDnsConn, in source order (udp, tcp, tls)"
+	nu := ex.fn(urel, "", "NewUpstream")
+	defTdc, ok1 := ex.pkgConst("pkg/upstream/transport/transport.go", "defaultTdcMaxConcurrentQuery", nil)
+	defQ, ok2 := ex.pkgConst("pkg/upstream/transport/transport.go", "defaultMaxLazyConnQueue", nil)
+	// the option fields are what the constructors install as limits
+	nd := ex.fn("pkg/upstream/transport/conn_traditional.go", "", "NewDnsConn")
+	np := ex.fn("pkg/upstream/transport/pipeline.go", "", "NewPipelineTransport")
+	gr := ex.fn("pkg/upstream/transport/pipeline.go", "PipelineTransport", "getReservedExchanger")
+	if nd != nil && np != nil && gr != nil {
+		ex.setBool("c09LimitsComeFromOpts",
+			countStr(stmtStrings(ex, nd.Body), "setDefaultGZ(&dc.maxCq, opt.MaxConcurrentQuery, defaultTdcMaxConcurrentQuery)") == 1 &&
+				countStr(stmtStrings(ex, np.Body), "setDefaultGZ(&t.maxLazyConnQueue, opt.MaxConcurrentQueryWhileDialing, defaultMaxLazyConnQueue)") == 1 &&
+				strings.Contains(ex.str(gr.Body), "newLazyDnsConn(t.dialFunc, t.dialTimeout, t.maxLazyConnQueue, t.logger)"),
+			true, "NewDnsConn installs opt.MaxConcurrentQuery (or the default) as maxCq; NewPipelineTransport installs opt.MaxConcurrentQueryWhileDialing (or the default) as the queue limit every dialing connection gets")
+	}
+	if nu == nil || !ok1 || !ok2 {
+		ex.setRaw("c09UpstreamPipelineLimits", "Option (List (Nat × Nat))", "none", "unknown: "+note)
+		return
+	}
+	type def struct {
+		name  string
+		rhs   ast.Expr
+		pos   token.Pos
+		block *ast.BlockStmt
+	}
+	var defs []def
+	var stack []*ast.BlockStmt
+	var walk func(n ast.Node)
+	walk = func(n ast.Node) {
+		ast.Inspect(n, func(x ast.Node) bool {
+			switch v := x.(type) {
+			case *ast.BlockStmt:
+				if v == n {
+					return true
+				}
+				stack = append(stack, v)
+				for _, st := range v.List {
+					walk(st)
+				}
+				stack = stack[:len(stack)-1]
+				return false
+			case *ast.CaseClause:
+				// a case clause is a scope of its own
+				b := &ast.BlockStmt{Lbrace: v.Colon, List: v.Body, Rbrace: v.End()}
+				stack = append(stack, b)
+				for _, st := range v.Body {
+					walk(st)
+				}
+				stack = stack[:len(stack)-1]
+				return false
+			case *ast.AssignStmt:
+				if v.Tok == token.DEFINE && len(v.Lhs) == len(v.Rhs) && len(stack) > 0 {
+					for i, l := range v.Lhs {
+						if id, ok := l.(*ast.Ident); ok {
+							defs = append(defs, def{id.Name, v.Rhs[i], v.Pos(), stack[len(stack)-1]})
+						}
+					}
+				}
+			}
+			return true
+		})
+	}
+	stack = append(stack, nu.Body)
+	for _, st := range nu.Body.List {
+		walk(st)
+	}
+	resolve := func(name string, use token.Pos) ast.Expr {
+		var best *def
+		for i := range defs {
+			d := &defs[i]
+			if d.name == name && d.pos < use && d.block.Pos() <= use && use <= d.block.End() && (best == nil || d.pos > best.pos) {
+				best = d
+			}
+		}
+		if best == nil {
+			return nil
+		}
+		return best.rhs
+	}
+	isLit := func(e ast.Expr, typ string) *ast.CompositeLit {
+		cl, ok := e.(*ast.CompositeLit)
+		if ok && cl.Type != nil && ex.str(cl.Type) == typ {
+			return cl
+		}
+		return nil
+	}
+	field := func(cl *ast.CompositeLit, name string) (ast.Expr, bool) {
+		for _, el := range cl.Elts {
+			if kv, ok := el.(*ast.KeyValueExpr); ok && ex.str(kv.Key) == name {
+				return kv.Value, true
+			}
+		}
+		return nil, false
+	}
+	number := func(e ast.Expr, present bool, dflt int64) (int64, bool) {
+		if !present {
+			return dflt, true
+		}
+		v, ok := ex.intLit(e, nil)
+		if !ok {
+			if id, isId := e.(*ast.Ident); isId {
+				if v, ok = ex.constIn(nu.Body, id.Name, nil); !ok {
+					v, ok = ex.pkgConst(urel, id.Name, nil)
+				}
+			}
+		}
+		if ok && v <= 0 {
+			return dflt, true // setDefaultGZ
+		}
+		return v, ok
+	}
+	var pairs []string
+	good := true
+	ast.Inspect(nu.Body, func(x ast.Node) bool {
+		e, isExpr := x.(ast.Expr)
+		if !isExpr {
+			return true
+		}
+		po := isLit(e, "transport.PipelineOpts")
+		if po == nil {
+			return true
+		}
+		dialE, has := field(po, "DialContext")
+		if !has {
+			good = false
+			return true
+		}
+		if id, ok := dialE.(*ast.Ident); ok {
+			dialE = resolve(id.Name, po.Pos())
+		}
+		fl, ok := dialE.(*ast.FuncLit)
+		if !ok {
+			good = false
+			return true
+		}
+		// what the dial function returns: transport.NewDnsConn(<opts>, ...) calls
+		var connOpts []*ast.CompositeLit
+		other := false
+		ast.Inspect(fl.Body, func(y ast.Node) bool {
+			c, ok := y.(*ast.CallExpr)
+			if !ok {
+				return true
+			}
+			switch f := ex.str(c.Fun); {
+			case f == "transport.NewDnsConn" && len(c.Args) == 2:
+				a := c.Args[0]
+				if id, ok := a.(*ast.Ident); ok {
+					a = resolve(id.Name, c.Pos())
+				}
+				if a == nil {
+					other = true
+				} else if cl := isLit(a, "transport.TraditionalDnsConnOpts"); cl != nil {
+					connOpts = append(connOpts, cl)
+				} else {
+					other = true
+				}
+			case strings.HasPrefix(f, "transport.New") && strings.HasSuffix(f, "DnsConn"):
+				other = true // a connection of another kind (quic): its limit is the peer's
+			}
+			return true
+		})
+		if len(connOpts) == 0 && other {
+			return true
+		}
+		if len(connOpts) != 1 || other {
+			good = false
+			return true
+		}
+		qe, qHas := field(po, "MaxConcurrentQueryWhileDialing")
+		ce, cHas := field(connOpts[0], "MaxConcurrentQuery")
+		qv, okq := number(qe, qHas, defQ)
+		cv, okc := number(ce, cHas, defTdc)
+		if !okq || !okc {
+			good = false
+			return true
+		}
+		pairs = append(pairs, fmt.Sprintf("(%d, %d)", qv, cv))
+		return true
+	})
+	if !good {
+		ex.setRaw("c09UpstreamPipelineLimits", "Option (List (Nat × Nat))", "none", "unknown: "+note)
+		return
+	}
+	ex.setRaw("c09UpstreamPipelineLimits", "Option (List (Nat × Nat))", "some ["+strings.Join(pairs, ", ")+"]", note)
 }
